@@ -276,6 +276,28 @@ pub fn run(ctx: &Ctx, st: &mut Stats) -> Vec<Violation> {
     if !v.is_empty() {
         return v;
     }
+    // real-size images
+    let sizes: Vec<(usize, usize)> = if ctx.quick() { crate::gen::LARGE_SIZES[..8].to_vec() } else { crate::gen::LARGE_SIZES.to_vec() };
+    let seed0 = ctx.seed;
+    v.extend(par_sweep(ctx, st, sizes.len() as u64 * 2, |lo, hi, st| {
+        for j in lo..hi {
+            let (w, h) = sizes[(j / 2) as usize];
+            let case = Case { forward: true, w, h, px: Px::Seeded { stratum: [0u8, 3][(j % 2) as usize], seed: mix64(seed0 ^ (j << 8) ^ 0x17) } };
+            let mut local = Stats::new();
+            local.sample_budget = 0;
+            if let Err(v) = check(&case, &mut local) {
+                return Some(v);
+            }
+            st.evaluations += 1;
+            st.comparisons += (w * h) as u64;
+            st.nontrivial_by_construction += 1;
+            st.class("large_images", 1);
+        }
+        None
+    }));
+    if !v.is_empty() {
+        return v;
+    }
     // enumerated lattice on [0,1]^3
     let side: usize = ctx.pick(129, 256);
     v.extend(par_sweep(ctx, st, side as u64, |lo, hi, st| {
